@@ -456,7 +456,12 @@ class LiveMedia(MediaRequestBase):
                 seg_num, first, last)
             raise err
 
-        if seg_num < first or seg_num > last:
+        # a number derived from $Time$ is zero-based, whereas first and
+        # last are counted from start_number
+        num = seg_num
+        if seg_time is not None:
+            num += representation.start_number
+        if num < first or num > last:
             logging.info(
                 '%s: Request for fragment %d that is not available (%d -> %d)',
                 timing.now, seg_num, first, last)
